@@ -141,7 +141,7 @@ func (e *Engine) header(st *symtab) string {
 		sb.WriteString("(assert (= (pow2 0) 1))\n(assert (forall ((n Int)) (! (=> (> n 0) (= (pow2 n) (* 2 (pow2 (- n 1))))) :pattern ((pow2 n)))))\n")
 	}
 	if st.ufs["strlen"] {
-		sb.WriteString("(assert (forall ((s Str)) (! (>= (strlen s) 0) :pattern ((strlen s)))))\n")
+		sb.WriteString("(assert (forall ((s Str)) (! (and (>= (strlen s) 0) (<= (strlen s) 4611686018427387904)) :pattern ((strlen s)))))\n")
 	}
 	if st.ufs["RLen"] {
 		sb.WriteString("(assert (forall ((r Int)) (! (>= (RLen r) 0) :pattern ((RLen r)))))\n")
@@ -252,6 +252,9 @@ func (e *Engine) script(vc *VC, o *Obligation, extra []*Term, getValues []*Term)
 		goal = True
 		terms = vc.Assumes[:vc.PreN]
 		terms = append(append([]*Term{}, terms...), extra...)
+	}
+	if vc.COI && o.Kind != "pre-sat" && o.Kind != "vacuity" {
+		terms = e.coneOfInfluence(vc, terms, goal)
 	}
 	terms = append(e.relevantAxioms(vc, append(append([]*Term{}, terms...), goal)), terms...)
 	st := &symtab{vars: map[string]*Sort{}, ufs: map[string]bool{}, structs: map[string]*Sort{}}
@@ -520,7 +523,7 @@ func (e *Engine) Solve(jobs []solveJob, cfg SolverCfg) {
 		var groups []*group
 		idx := map[*VC]*group{}
 		for _, j := range jobs {
-			if j.o.Folded || j.o.Kind == "pre-sat" || j.o.Kind == "vacuity" || j.o.Quick {
+			if j.o.Folded || j.o.Kind == "pre-sat" || j.o.Kind == "vacuity" || j.o.Quick || j.vc.COI {
 				continue
 			}
 			g := idx[j.vc]
@@ -702,4 +705,103 @@ func splitSexpr(s string) (string, string) {
 
 func sortObls(os []*Obligation) {
 	sort.SliceStable(os, func(i, j int) bool { return os[i].Name < os[j].Name })
+}
+
+// coneOfInfluence keeps the hypotheses connected to the goal through shared free symbols (variables
+// and uninterpreted functions), transitively.  Reachability names, top0 and the function's
+// reference-typed parameters are hubs: sharing only a hub does not connect a hypothesis (its
+// definition is still pulled in once the name is in the cone).  Dropping hypotheses is sound for
+// "unsat" answers; a "sat" answer on the reduced query is only a candidate and goes through replay
+// like any other.
+func (e *Engine) coneOfInfluence(vc *VC, terms []*Term, goal *Term) []*Term {
+	hubName := map[string]bool{"top0": true}
+	for _, in := range vc.Inputs {
+		if in.T != nil && in.T.Op == "var" && in.Ty != nil && isRefType(in.Ty) {
+			hubName[in.T.Name] = true
+		}
+	}
+	isHub := func(s string) bool { return hubName[s] || strings.HasPrefix(s, "reach!") }
+	symsOf := func(t *Term) map[string]bool {
+		st := &symtab{vars: map[string]*Sort{}, ufs: map[string]bool{}, structs: map[string]*Sort{}}
+		st.walk(e, t, map[*Term]bool{}, nil)
+		m := map[string]bool{}
+		for v := range st.vars {
+			m[v] = true
+		}
+		for u := range st.ufs {
+			if u != "at" && u != "strlen" && u != "dyntype" {
+				m["uf:"+u] = true
+			}
+		}
+		return m
+	}
+	tsyms := make([]map[string]bool, len(terms))
+	defOf := make([]string, len(terms))
+	for i, t := range terms {
+		tsyms[i] = symsOf(t)
+		if t.Op == "=" && len(t.Args) == 2 && t.Args[0].Op == "var" && strings.Contains(t.Args[0].Name, "!") {
+			defOf[i] = t.Args[0].Name
+		}
+	}
+	// relations between two plain names (allocation distinctness/order): relevant only when both are
+	isVarRel := func(t *Term) bool {
+		if t.Op == "not" && len(t.Args) == 1 {
+			t = t.Args[0]
+		}
+		return (t.Op == "=" || t.Op == ">" || t.Op == "<" || t.Op == ">=" || t.Op == "<=") && len(t.Args) == 2 && t.Args[0].Op == "var" && t.Args[1].Op == "var"
+	}
+	needAll := make([]bool, len(terms))
+	for i, t := range terms {
+		needAll[i] = defOf[i] == "" && isVarRel(t)
+	}
+	have := symsOf(goal)
+	in := make([]bool, len(terms))
+	for changed := true; changed; {
+		changed = false
+		for i := range terms {
+			if in[i] {
+				continue
+			}
+			hit := false
+			if defOf[i] != "" {
+				hit = have[defOf[i]]
+			} else if needAll[i] {
+				hit = true
+				for s := range tsyms[i] {
+					if !have[s] {
+						hit = false
+					}
+				}
+			} else {
+				n := 0
+				for s := range tsyms[i] {
+					if isHub(s) {
+						continue
+					}
+					n++
+					if have[s] {
+						hit = true
+						break
+					}
+				}
+				if n == 0 {
+					hit = true
+				}
+			}
+			if hit {
+				in[i] = true
+				changed = true
+				for s := range tsyms[i] {
+					have[s] = true
+				}
+			}
+		}
+	}
+	var out []*Term
+	for i, t := range terms {
+		if in[i] {
+			out = append(out, t)
+		}
+	}
+	return out
 }
